@@ -8,18 +8,26 @@ import (
 	"sync"
 	"time"
 
+	"github.com/fatih/color"
+
 	"github.com/go-task/task/v3/internal/logger"
 	"github.com/go-task/task/v3/internal/templater"
 	zz "github.com/go-task/task/v3/internal/zzsym"
 	"github.com/go-task/task/v3/taskfile/ast"
 )
 
-// The logger's colour machinery is not the subject: the prefix is written plainly.
+// The colour machinery (fatih/color) is not the subject: a colour's print function formats
+// plainly. Logger.FOutf itself runs from source.
 //
-//gosmt:stub (*github.com/go-task/task/v3/internal/logger.Logger).FOutf
-func zzFOutf(l *logger.Logger, w io.Writer, color logger.Color, s string, args ...any) {
-	_, _ = io.WriteString(w, s)
+//gosmt:stub (*github.com/fatih/color.Color).FprintfFunc
+func zzFprintfFunc(c *color.Color) func(w io.Writer, format string, a ...interface{}) {
+	return func(w io.Writer, format string, a ...interface{}) {
+		_, _ = fmt.Fprintf(w, format, a...)
+	}
 }
+
+//gosmt:stub github.com/fatih/color.New
+func zzColorNew(value ...color.Attribute) *color.Color { return &color.Color{} }
 
 // zzShared is the shared output stream: every Write call is one atomic append (as
 // for an *os.File) and a scheduling point; the harness sees the sequence of calls.
@@ -130,6 +138,9 @@ func ZZ_C17_Group() {
 func ZZ_C17_Prefixed() {
 	sink := &zzShared{}
 	ids := []string{"A", "B"}
+	if zz.Bool("prefix_holds_a_percent_sign") {
+		ids = []string{"A-100%", "B%s"} // a prefix is text, not a format
+	}
 	letters := []string{"a", "b"}
 	var chunks [2][]string
 	for k := range ids {
